@@ -326,6 +326,8 @@ func c05Shapes(cfg Config, res *Result) {
 }
 
 func suiteC05(cfg Config, res *Result) {
+	defer c05ReentrantInclude(res)
+	defer bytesBelongToCaller(res, "race", "c05-bytes-owner")
 	c05SharedConcurrent(res)
 	c05ColdTypes(res)
 	defer c05RealLoaders(res)
